@@ -21,10 +21,10 @@ def run(ctx):
         for _ in range(4 if ctx.thorough else 2):
             tail = rng.randbytes(rng.choice((0, 1, 2, 3, 20)))
             for op in ('ec_params', 'ecdh'):
-                exp = 'error Switch' if ct not in (1, 3) and True else None
-                cases.append(enc.Case('curve_type_sweep', (op,), bytes([ct]) + tail, [], None, expect=exp))
-    common.run_exact(ctx, [c for c in cases if c.expect])
-    common.run_differential(ctx, [c for c in cases if not c.expect], common.proj_value)
+                c = enc.Case('curve_type_sweep/%d' % ct, (op,), bytes([ct]) + tail, [], None)
+                cases.append(c)
+    common.run_differential(ctx, cases, common.proj_value,
+                            classify=lambda c, r: 'curve type %s is neither explicit-prime nor named-curve: must be rejected' % c.fam.split('/')[1] if int(c.fam.split('/')[1]) not in (1, 3) and not (r.startswith('error') or r.startswith('failure')) else None, label='curve_type_sweep')
     # all 65536 named groups inside ECParameters (exhaustive): value preserved
     groups = range(65536) if ctx.thorough else list(range(0, 65536, 97)) + [0, 1, 23, 29, 255, 256, 65535]
     gc = [enc.Case('named_group_sweep', ('ec_params',), bytes([3]) + g.to_bytes(2, 'big') + b'\x07', [], None,
@@ -40,7 +40,7 @@ def run(ctx):
                             classify=lambda c, r: 'a strict prefix of the structure must not yield a value' if r.startswith('ok ') else None)
     common.lean_failure_violation(ctx, ok)
     return ctx.finish(LEVEL,
-        rule='ServerDHParams / ECParameters (named and explicit-prime) / ServerECDHParams / DigitallySigned (both forms) / parse_content_and_signature (both flag values) / named groups: independent-encoder values with boundary field lengths (exact), suffixes, corruptions (differential), all 256 curve types (exact: Switch unless 1 or 3), named groups swept, strict prefixes (class: never a value); distinct = (family, outcome shape)',
+        rule='ServerDHParams / ECParameters (named and explicit-prime) / ServerECDHParams / DigitallySigned (both forms) / parse_content_and_signature (both flag values) / named groups: independent-encoder values with boundary field lengths (exact), suffixes, corruptions (differential), all 256 curve types (class: rejected with an error unless 1 or 3), named groups swept, strict prefixes (class: never a value); distinct = (family, outcome shape)',
         checker_cmd='cd /verif/lean && lake build TlsModel.Props.C13', assumptions=[])
 
 
